@@ -25,10 +25,15 @@ PathVals == << PathV("missing", sE, <<>>), PathV("file", sE, <<>>), PathV("file"
 \* inner lists of the list-of-lists sort (the empty one matters: AnyMatch on it is an empty mismatch)
 InnerLists == { ListV(<<>>), ListV(<<IntV(0)>>), ListV(<<IntV(1)>>), ListV(<<IntV(0), IntV(1)>>) }
 
+\* mixed numerics: 0 == False == 0.0 and 1 == True == 1.0, six distinguishable values
+NumVals == << IntV(0), IntV(1), BoolV(0), BoolV(1), FloatV(0), FloatV(1) >>
+
 \* ---- quick universe -------------------------------------------------------------------------
 ValsQ == [s \in AllSorts |->
     CASE s = "int"  -> << IntV(0), IntV(1), IntV(2) >>
-      [] s = "str"  -> << StrV(sE), StrV(sA), StrV(sB), StrV(sAB) >>
+      [] s = "str"  -> << StrV(sE), StrV(sA), StrV(sB), StrV(sAB), StrV(<<1, 3>>), StrV(<<1, 3, 2>>) >>
+      [] s = "num"  -> NumVals
+      [] s = "lnum" -> SetToSeq({ ListV(l) : l \in SeqsUpTo({ NumVals[j] : j \in DOMAIN NumVals } \ {FloatV(0)}, 2) })
       [] s = "lint" -> SetToSeq({ ListV(l) : l \in SeqsUpTo({IntV(0), IntV(1), IntV(2)}, 2) })
       [] s = "lstr" -> SetToSeq({ ListV(l) : l \in SeqsUpTo({StrV(sA), StrV(sB)}, 2) })
       [] s = "llint" -> SetToSeq({ ListV(l) : l \in SeqsUpTo(InnerLists, 2) })
@@ -42,7 +47,8 @@ ValsQ == [s \in AllSorts |->
 \* ---- larger universe (thorough tier, ternary nodes) -----------------------------------------
 ValsF == [s \in AllSorts |->
     CASE s = "int"  -> << IntV(0), IntV(1), IntV(2), IntV(3) >>
-      [] s = "str"  -> << StrV(sE), StrV(sA), StrV(sB), StrV(sAB), StrV(sBA), StrV(<<1, 1>>), StrV(<<1, 2, 1>>) >>
+      [] s = "str"  -> << StrV(sE), StrV(sA), StrV(sB), StrV(sAB), StrV(sBA), StrV(<<1, 1>>), StrV(<<1, 2, 1>>),
+                          StrV(<<3>>), StrV(<<1, 3>>), StrV(<<1, 3, 2>>), StrV(<<2, 3, 3>>) >>
       [] s = "lint" -> SetToSeq({ ListV(l) : l \in SeqsUpTo({IntV(0), IntV(1), IntV(2)}, 3) })
       [] s = "lstr" -> SetToSeq({ ListV(l) : l \in SeqsUpTo({StrV(sA), StrV(sB), StrV(sAB)}, 2) })
       [] s = "dict" -> SetToSeq({ DictV(d) : d \in DictsOver({"k1", "k2", "k3"}, {0, 1}) })
@@ -69,7 +75,8 @@ ExcI(ty, n) == [op |-> "MatchesException", form |-> "inst", ty |-> ty, arg |-> n
 ExcT(tys) == [op |-> "MatchesException", form |-> "type", tys |-> tys, vk |-> "none"]
 ExcR(tys, n) == [op |-> "MatchesException", form |-> "type", tys |-> tys, vk |-> "re", n |-> n]
 At(c, star) == [c |-> c, star |-> star]
-Re(atoms, anch) == [op |-> "MatchesRegex", pat |-> [atoms |-> atoms, anch |-> anch]]
+ReF(atoms, anch, fl) == [op |-> "MatchesRegex", pat |-> [atoms |-> atoms, anch |-> anch, fl |-> fl]]
+Re(atoms, anch) == ReF(atoms, anch, "")
 \* zero-arity combinators: MatchesAny() never matches, MatchesAll() always matches; usable at every sort
 NoAlt == [op |-> "MatchesAny", ms |-> <<>>]
 NoReq == [op |-> "MatchesAll", ms |-> <<>>, fo |-> FALSE]
@@ -90,6 +97,9 @@ LeafQ0 == [s \in AllSorts |->
              HasAll(<<StrV(sA), StrV(sB)>>),
              Re(<<At(1, FALSE)>>, FALSE), Re(<<At(1, TRUE), At(2, FALSE)>>, FALSE), Re(<<At(0, FALSE)>>, TRUE),
              Re(<<At(0, TRUE), At(2, FALSE)>>, TRUE),
+             \* the same patterns with other flags (the verdict may depend on pattern, flags and value only)
+             ReF(<<At(0, FALSE)>>, TRUE, "M"), ReF(<<At(0, TRUE), At(2, FALSE)>>, TRUE, "S"),
+             ReF(<<At(1, FALSE)>>, FALSE, "S"), Re(<<At(1, FALSE), At(3, FALSE)>>, TRUE),
              Len_(1), Lt(StrV(sAB)), Gt(StrV(sA)), Inst(<<"text">>), Inst(<<"int", "list">>), Pred("nonempty"),
              Always, Never }
       [] s = "lint" ->
@@ -108,6 +118,16 @@ LeafQ0 == [s \in AllSorts |->
            { ExcI("VE", 0), ExcI("KE", 1), ExcI("LE", 0), ExcI("BE", 1),
              ExcT(<<"VE">>), ExcT(<<"LE">>), ExcT(<<"EX">>), ExcT(<<"BX">>), ExcT(<<"BE">>), ExcT(<<"VE", "KE">>),
              ExcR(<<"VE">>, 0), ExcR(<<"EX">>, 1), ExcR(<<"BX">>, 1), Inst(<<"tuple">>), Always, Never }
+      [] s = "num" ->
+           { Inst(<<"int">>), Inst(<<"bool">>), Inst(<<"float">>), Inst(<<"float", "bool">>),
+             IsE(IntV(1)), IsE(BoolV(1)), IsE(BoolV(0)), Eq(IntV(1)), Ne(FloatV(0)), Lt(BoolV(1)), Always, Never }
+      [] s = "lnum" ->
+           { Has(IntV(1)), Has(BoolV(0)), Same(<<IntV(1), FloatV(0)>>), Eq(ListV(<<BoolV(1), IntV(0)>>)), Len_(2), Never }
+      [] s = "num" ->
+           { Inst(<<"int">>), Inst(<<"bool">>), Inst(<<"float">>), Inst(<<"float", "bool">>),
+             IsE(IntV(1)), IsE(BoolV(1)), IsE(BoolV(0)), Eq(IntV(1)), Ne(FloatV(0)), Lt(BoolV(1)), Always, Never }
+      [] s = "lnum" ->
+           { Has(IntV(1)), Has(BoolV(0)), Same(<<IntV(1), FloatV(0)>>), Eq(ListV(<<BoolV(1), IntV(0)>>)), Len_(2), Never }
       [] s = "llint" ->
            { Eq(ListV(<<IL(<<0>>)>>)), Len_(1), Has(IL(<<>>)), Always, Never }
       [] s = "call" -> { [op |-> "RaisesAny"], Always, Never }
@@ -122,6 +142,7 @@ LeafQ == [s \in AllSorts |-> LeafQ0[s] \cup {NoAlt, NoReq}]
 LeafS == [s \in AllSorts |->
     CASE s = "int"  -> { Eq(I(0)), Lt(I(2)), Gt(I(0)), NoAlt }
       [] s = "str"  -> { Eq(StrV(sA)), Starts(sA), Ends(sB) }
+      [] s = "num"  -> { Inst(<<"int">>), Inst(<<"bool">>), IsE(IntV(1)) }
       [] s = "exc"  -> { ExcT(<<"LE">>), ExcI("BE", 1), NoAlt }
       [] s = "call" -> { [op |-> "RaisesAny"] }
       [] s = "path" -> { [op |-> "PathExists"] }
@@ -133,13 +154,16 @@ LeafSim == [s \in AllSorts |-> LeafQ[s]]
 AllWraps == {"Not", "Annotate", "AllMatch", "AnyMatch", "Listwise1", "Setwise1", "LenStr", "LenList", "LenDict", "Sum",
              "Rev", "ExcM", "Raises", "Struct1", "Dict1M", "Dict1C", "Dict1B", "FileM", "DirM"}
 AllCombos == {"AllF", "AllT", "Any", "ListwiseF", "ListwiseT", "Setwise", "DictM", "DictC", "DictB", "Struct"}
+\* first_only never changes a verdict: the quick exhaustive config leaves the first_only twins to the height-3 config
+QuickCombos == AllCombos \ {"AllT", "ListwiseT"}
 Combos3S == {"AllF", "Any", "ListwiseF", "Setwise"}
 NoCombos == {}
 SetwiseOnly == {"Setwise"}
 NoWraps == {}
 IntOnly == {"int"}
 IntStr == {"int", "str"}
-D3Roots == {"int", "str", "exc"}
+D3Roots == {"int", "str", "exc", "num"}
+IntStrNum == {"int", "str", "num"}
 
 ASSUME PrintT(<<"UNIVERSE", ToJson(Vals)>>)
 =============================================================================
